@@ -95,9 +95,11 @@ where
     K: GGLWEInfos,
     M: GLWEPackerOps<BE>,
 {
-    GLWE::<Vec<u8>>::bytes_of_from_infos(res_infos)
+    // One accumulator-shaped temporary for the combination, one for an input given in another radix.
+    2 * GLWE::<Vec<u8>>::bytes_of_from_infos(res_infos)
         + module
             .glwe_shift_tmp_bytes()
+            .max(module.glwe_normalize_tmp_bytes())
             .max(module.glwe_automorphism_tmp_bytes(res_infos, res_infos, key_infos))
 }
 
@@ -252,8 +254,15 @@ pub(crate) fn pack_core<A, K, H, M, BE: Backend>(
         }
         acc_mut_ref.control = true; // Able to be combined on next call
     } else {
-        // Compresses acc_prev <- combine(acc_prev, a).
-        combine(module, &mut acc_prev[0], a, i, auto_keys, scratch);
+        // Compresses acc_prev <- combine(acc_prev, a), with `a` brought into the accumulator's radix first.
+        match a {
+            Some(a_ref) if a_ref.base2k() != acc_prev[0].data.base2k() => {
+                let (mut a_conv, scratch_1) = scratch.take_glwe(&acc_prev[0].data);
+                module.glwe_normalize(&mut a_conv, a_ref, scratch_1);
+                combine(module, &mut acc_prev[0], Some(&a_conv), i, auto_keys, scratch_1);
+            }
+            _ => combine(module, &mut acc_prev[0], a, i, auto_keys, scratch),
+        }
         acc_prev[0].control = false;
 
         // Propagates to next accumulator
